@@ -35,8 +35,7 @@ MANIFEST = dict(
          "LengthSpec of the INPUT contig (Trace_Range.tla), evaluating the design on the recorded descriptor lists as well; a sample of "
          "queries also goes through the CLI (`ragc getrange`, `ragc ctglen`).",
     note="Trusted: TLC, the harness (drives the API, codes answers losslessly as prefix deltas, usize::MAX -> 2^31-1). Exhaustive only within the MC "
-         "bounds; real archives are sampled (seeded grid). Which stored segments came from a split is not visible in the descriptor list and is "
-         "not measured separately.",
+         "bounds; real archives are sampled (seeded grid).",
     technique="TLA+ spec (Range.tla) + TLC exhaustive MC of the slicing arithmetic; recorded answers of the real Decompressor / CLI validated by TLC (Trace_Range.tla)")
 
 TRACE_INVS = ("T_Length", "T_Extract", "T_Descriptors", "T_ImplTied", "RangeAgrees", "LengthAgrees")
@@ -70,17 +69,17 @@ def grid(tier, seed):
         for i in range(2):
             add("rc", 3, 2, 100 + 60 * i, 5, 20, short_max=sm)
             add("short", 3, 1, 150, 6 + i, 25, short_max=sm, via="cli", cli_queries=150)
-            add("basic", 4, 2, 220, 7, 30 + 10 * i, short_max=sm, t=4)
+            add("basic", 4, 2, 220, 7, 30 + 10 * i, short_max=sm, t=4, fallback=0.1 * i)
             add("iupac", 3, 2, 200, 8, 25, short_max=sm, mode="single" if i else "multi")
-            add("basic", 5, 2, 600, 7, 40, short_max=100, cross="full", fallback=0.1 * i)
             add("trunc", 6, 2, 500, 9, 40, mode="single", short_max=100, cross="full")
-            add("trunc", 5, 2, 700, 10, 50, short_max=100, cross="full")
-            add("iupac", 4, 2, 900, 11, 60, mm=14, short_max=100, cross="full")
-            add("dup", 4, 2, 1500, 15, 100, mm=18, short_max=100, cross="full")
-            add("reorder", 6, 3, 500, 8, 30, short_max=100, via="cli", cross="full", cli_queries=100)
-            add("rc", 4, 2, 1200, 13, 80, mm=15, short_max=100, cross="full", t=8)
+            add("reorder", 4, 2, 500, 8, 30, short_max=100, via="cli", cross="full", cli_queries=100)
             add("manysamples", 55, 1, 200, 5, 30, mode="single", short_max=60, max_long=12, skip_long=7 * i)
-            add("basic", 3, 1, 5000, 12, 120, mm=15, short_max=100, max_long=2, skip_long=i)
+        add("basic", 5, 2, 600, 7, 40, short_max=100, cross="full")
+        add("trunc", 5, 2, 700, 10, 50, short_max=100, cross="full")
+        add("iupac", 4, 2, 900, 11, 60, mm=14, short_max=100, cross="full")
+        add("dup", 4, 2, 1500, 15, 100, mm=18, short_max=100, cross="full", max_long=4, skip_long=1)
+        add("rc", 4, 2, 1200, 13, 80, mm=15, short_max=100, cross="full", t=8, max_long=4, skip_long=2)
+        add("basic", 3, 1, 5000, 12, 120, mm=15, short_max=100, max_long=3)
     return g
 
 
@@ -158,7 +157,7 @@ def make_archive(ctx, cs, cli):
         r = json.loads(out.strip().splitlines()[-1])
         if r["result"] != "ok":
             raise C.ToolError("rvh create failed on %s: %s %s" % (cid, r["result"], r["msg"][-400:]))
-    return d, agc
+    return d, agc, files
 
 
 def cli_trace(ctx, cs, cli, d, agc, metas, tp):
@@ -217,10 +216,13 @@ def cli_trace(ctx, cs, cli, d, agc, metas, tp):
 def run_case(ctx, cs, cli, impl_every):
     t0 = time.time()
     cid = case_id(cs)
-    d, agc = make_archive(ctx, cs, cli)
+    d, agc, files = make_archive(ctx, cs, cli)
     tp, mp = os.path.join(d, "t.ndjson"), os.path.join(d, "meta.ndjson")
     args = ["trace-range", "--agc", agc, "--case", os.path.join(d, "case.json"), "--out", tp, "--meta", mp, "--arc", cid,
-            "--short-max", str(cs["short_max"]), "--cross", cs["cross"], "--skip-long", str(cs["skip_long"])]
+            "--short-max", str(cs["short_max"]), "--cross", cs["cross"], "--skip-long", str(cs["skip_long"]),
+            "--first-file", files[0], "--seg", str(cs["seg"])]     # (the last two: measurement of split-produced junctions only)
+    if cs["mode"] == "single":
+        args += ["--single"]
     if cs["max_short"] < 10 ** 9:
         args += ["--max-short", str(cs["max_short"])]
     if cs["max_long"] < 10 ** 9:
@@ -249,12 +251,12 @@ def run_case(ctx, cs, cli, impl_every):
         res["accepted"] = summ["contigs"]
     else:
         cases = _group(C.read_ndjson(tp), cid)
-        acc, rej, st, gen = C.validate_trace("Trace_Range", cfg, cases, wd, timeout=3000, xmx="4g", max_reject=3)
+        acc, rej, st, gen = C.validate_trace("Trace_Range", cfg, cases, wd, timeout=3000, xmx="4g", max_reject=2)
         res["accepted"], res["rejected"] = acc, rej
         res["states"] += st
         res["generated"] += gen
     if cli_cases:
-        acc, rej, st, gen = C.validate_trace("Trace_Range", cfg, cli_cases, os.path.join(d, "tvcli"), timeout=900, max_reject=3)
+        acc, rej, st, gen = C.validate_trace("Trace_Range", cfg, cli_cases, os.path.join(d, "tvcli"), timeout=900, max_reject=2)
         res["cli_accepted"], res["cli_rejected"] = acc, rej
         res["states"] += st
         res["generated"] += gen
@@ -351,6 +353,7 @@ def run(ctx, only=None):
     ctx.exhaustive = only is None
     seen = set()
     tot = dict(archives=0, contigs=0, contigs_accepted=0, queries=0, q_events=0, nonempty=0, multi=0, overlap=0, rev=0, clamped=0, tail_zero=0,
+               split=0, split_junctions=0, contigs_with_split_junction=0,
                contigs_multi_segment=0, contigs_with_reverse_segment=0, contigs_tail_k_only=0, contigs_first_segment_k_only=0,
                contigs_all_pairs=0, contigs_junction=0, max_segments=0, max_contig_len=0, cli_queries=0, cli_contigs=0, cli_accepted=0,
                duplicate_contigs_not_counted=0, one_base_contributions=0)
@@ -377,8 +380,9 @@ def run(ctx, only=None):
                 tot["duplicate_contigs_not_counted"] += 1
                 continue
             seen.add(key)
-            for f in ("nonempty", "multi", "overlap", "rev", "clamped", "tail_zero"):
+            for f in ("nonempty", "multi", "overlap", "rev", "clamped", "tail_zero", "split", "split_junctions"):
                 tot[f] += nt[f]
+            tot["contigs_with_split_junction"] += nt["split_junctions"] > 0
             k, lens = m["k"], m["lens"]
             tot["contigs_multi_segment"] += len(lens) >= 2
             tot["contigs_with_reverse_segment"] += any(m["rc"])
@@ -405,14 +409,16 @@ def run(ctx, only=None):
                 "(thorough: (W+S)^2). Contigs with identical (bases, descriptor list, k) are counted once. distinct_nontrivial = accepted "
                 "non-empty answers that meet the contribution of >= 2 segments (%d); of the non-empty answers %d start or end strictly inside a "
                 "k-base overlap, %d meet a reverse-oriented segment, %d are clamped (end > len), %d reach the last base of a contig whose list "
-                "ends with a k-only segment (0 bases). Contigs: %d multi-segment, %d with a reverse-oriented segment, %d with a trailing k-only "
+                "ends with a k-only segment (0 bases), %d span a junction produced by splitting a segment in two (its k-mer is not a splitter of "
+                "the reference; %d such junctions in %d contigs). Contigs: %d multi-segment, %d with a reverse-oriented segment, %d with a trailing k-only "
                 "segment, %d whose first segment is exactly k bases, %d one-base contributions; up to %d segments per contig."
-                % (tot["cli_queries"], tot["multi"], tot["overlap"], tot["rev"], tot["clamped"], tot["tail_zero"], tot["contigs_multi_segment"],
+                % (tot["cli_queries"], tot["multi"], tot["overlap"], tot["rev"], tot["clamped"], tot["tail_zero"], tot["split"], tot["split_junctions"],
+                   tot["contigs_with_split_junction"], tot["contigs_multi_segment"],
                    tot["contigs_with_reverse_segment"], tot["contigs_tail_k_only"], tot["contigs_first_segment_k_only"],
                    tot["one_base_contributions"], tot["max_segments"]))
     if not ctx.violations and only is None:
         # vacuity guards on the sampled space (tool error, not a verdict)
-        for f in ("multi", "overlap", "rev", "tail_zero", "clamped"):
+        for f in ("multi", "overlap", "rev", "tail_zero", "clamped", "split"):
             if tot[f] == 0:
                 raise C.ToolError("vacuity guard: no accepted query of class '%s' in this run" % f)
         if tot["contigs_tail_k_only"] == 0 or tot["contigs_all_pairs"] == 0 or tot["contigs_junction"] == 0:
